@@ -166,7 +166,12 @@ class SaltStrings(Part):
     def run(self, case):
         res = Res()
         js = mod()
-        plains = ["", "a", "netconanRemoved12", "".join(chr(c) for c in range(0, 256, 5)), "\x00\xff" * 9,
+        # plaintexts with a structure of their own: shaped like the formats the tool handles, first of all
+        # like a $9$ string (an encryption encrypted again), and near misses of that shape
+        shaped = [refs.j9_encode(q, c) for q in ("abc", "secret", "") for c in ("Q", "-", "z")] + [
+            "$9$abcd", "$9$" + "n" * 4, "$9$ab", "$9$", "$9$ab,d", "x$9$abcd", "$9$abcd\n", "$1$abcd$" + "x" * 22,
+            "$6$ab$" + "y" * 86, "0822455D0A16", "65001", "10.1.2.3", "password secret", '"quoted"', "a b", " lead", "trail "]
+        plains = shaped + ["", "a", "netconanRemoved12", "".join(chr(c) for c in range(0, 256, 5)), "\x00\xff" * 9,
                   "p" * 64, "seed%d" % self.seed, "q" * 1500, "".join(chr(33 + i % 90) for i in range(5000)),
                   "".join(chr(i % 256) for i in range(20000))]
         salts = [c + "tail" for c in ALPH] + ["saltForTest", "", None, " x", "!", "é", "中文", "\t", "$9$",
